@@ -1290,6 +1290,67 @@ impl Exec {
 // ---------------------------------------------------------------------------------------------------------------
 // Workloads.
 
+// ---------------------------------------------------------------------------------------------------------------
+// The server assembled with `ProxyGetRequestLayer` (GET /health and GET /info/x are mapped to RPC methods): the mapping
+// concerns GET on exactly those paths; every other method stays refused with 405 there too, and no handler runs.
+
+async fn proxy_family(seed: u64) -> (Evidence, Vec<Violation>) {
+	use jsonrpsee_server::middleware::http::ProxyGetRequestLayer;
+	let mut ev = Evidence::new("");
+	let mut violations = Vec::new();
+	let mut r = Rng::new(seed);
+	let log: Log = Arc::new(Mutex::new(Vec::new()));
+	let (stop_handle, _server_handle) = jsonrpsee_server::stop_channel();
+	let layer = ProxyGetRequestLayer::new([("/health", "e"), ("/info/x", "echo_async")]).expect("paths start with /");
+	let builder = jsonrpsee_server::Server::builder().set_http_middleware(tower::ServiceBuilder::new().layer(layer)).to_service_builder();
+	let mut svc = builder.build(module(log.clone()), stop_handle);
+	let paths = ["/health", "/info/x", "/", "/health/", "/other"];
+	let mut methods: Vec<&str> = vec!["GET", "POST"];
+	methods.extend(STANDARD_METHODS.iter().copied().filter(|m| *m != "GET" && *m != "CONNECT"));
+	methods.extend(EXTENSION_METHODS.iter().copied());
+	for path in paths {
+		for m in &methods {
+			let body: &[u8] = if r.bool() { b"{\"jsonrpc\":\"2.0\",\"id\":1,\"method\":\"fail\"}" } else { b"" };
+			let with_ct = r.bool();
+			let mut b = http::Request::builder().method(http::Method::from_bytes(m.as_bytes()).expect("method token")).uri(format!("http://localhost{path}")).header("host", "localhost");
+			if with_ct {
+				b = b.header("content-type", "application/json");
+			}
+			let req = b.body(http_body_util::Full::new(Bytes::copy_from_slice(body))).expect("request");
+			log.lock().unwrap().clear();
+			let reply = http_call(&mut svc, req).await;
+			let ran: Vec<(String, String)> = std::mem::take(&mut *log.lock().unwrap());
+			ev.eval();
+			ev.count("proxy_layer_requests", 1);
+			ev.nontrivial(&("proxy", path, *m, with_ct, body.len()));
+			let mapped = path == "/health" || path == "/info/x";
+			let w = json!({"family": "proxy-get-layer", "method": m, "path": path, "content_type": with_ct, "body": lossy(body), "status": reply.status, "handlers": ran.iter().map(|x| x.0.clone()).collect::<Vec<_>>()});
+			match *m {
+				"GET" if mapped => {
+					let want = if path == "/health" { "e" } else { "echo_async" };
+					if reply.status != 200 || ran.len() != 1 || ran[0].0 != want {
+						violations.push(Violation::new("proxy-get-not-mapped/configured-path".to_string(), format!("GET {path}: status {} handlers {ran:?}", reply.status), w));
+					}
+				}
+				"POST" => {
+					// judged by the main part of this check
+				}
+				_ => {
+					if reply.status != 405 || !ran.is_empty() {
+						let class = if mapped { "proxied-path" } else { "other-path" };
+						violations.push(Violation::new(
+							format!("gate-method-not-405/{}:{class}", if STANDARD_METHODS.contains(m) { "standard-method" } else { "extension-method" }),
+							format!("{m} {path} on a server with ProxyGetRequestLayer: status {} and {} handler invocation(s), expected 405 and none", reply.status, ran.len()),
+							w,
+						));
+					}
+				}
+			}
+		}
+	}
+	(ev, violations)
+}
+
 const DEFAULT_LIMIT: u32 = 10 * 1024 * 1024;
 const SMALL_LIMIT: u32 = 300;
 
@@ -1436,6 +1497,15 @@ fn main() {
 	for (e, v) in results {
 		ev.merge(e);
 		violations.extend(v);
+	}
+	{
+		let seed = ctx.seed;
+		let reps = ctx.tier.pick(8u64, 200);
+		let res = run_parallel((0..reps).collect(), |_, i| block_on_virtual(proxy_family(Rng::fork(seed ^ 0x9e7, i).next_u64())));
+		for (e, v) in res {
+			ev.merge(e);
+			violations.extend(v);
+		}
 	}
 	for p in take_panics() {
 		if p.in_library {
